@@ -164,6 +164,19 @@ pub fn run(tier: &str, seed: u64, replay: Option<String>) -> i32 {
                 n_single += 1;
             }
         }
+        // walls that have no adjacent space get one that does not exist (whatever their boundary type)
+        for (i, w) in closure::collection(&v, &["walls"]).iter().enumerate() {
+            if !w.get("next_to").map(|x| x.is_string()).unwrap_or(false) {
+                for val in ["<fresh>", closure::NIL] {
+                    let st = json!({"base": b, "edits": [MEdit::SetKey{ptr: format!("/walls/{}", i), key: "next_to".into(), value: json!(val)}], "what": "single"});
+                    if small && i % 3 == 0 {
+                        ind_steps.push(st.clone());
+                    }
+                    steps.push(st);
+                    n_single += 1;
+                }
+            }
+        }
         for p in &bridges {
             steps.push(json!({"base": b, "edits": [MEdit::NumberNegated{ptr: p.clone()}], "what": "single"}));
             n_single += 1;
